@@ -25,6 +25,8 @@ func init() {
 			c.floor("ABSORB", 100)
 			c.runBoundDirection("BOUNDDIR", c.libPkgs()[:3], nil)
 			c.floor("BOUNDDIR", 4)
+			c.runFieldCanon("FIELDCANON", append(c.libPkgs()[:4:4], c.fixturePkg("g")))
+			c.floor("FIELDCANON", 3)
 			c.runCanonFirst("CANON", append(c.libPkgs()[:4:4], c.fixturePkg("g")))
 			c.floor("CANON", 3)
 		},
